@@ -316,6 +316,118 @@ async fn run_one(strategy: &'static str, two_proxies: bool, max_redir: usize, th
     acc
 }
 
+/// Multi-key reads whose per-key backend replies complete in every possible order: 2-3 keys,
+/// 1-2 backend connections (round robin), the backend requests are held at the gate and served in
+/// the order given by `choices` (index into the currently pending requests, 0 after the prefix).
+/// Returns (branching factors met, reply, expected reply).
+async fn run_mget_order(strategy: &'static str, conns: usize, nkeys: usize, choices: Vec<usize>) -> Result<(Vec<usize>, RespVec, RespVec, String), String> {
+    let w = World::new();
+    w.add_redis(N1);
+    w.add_redis(N2);
+    let opts = ProxyOpts { backend_conn_num: conns, ..Default::default() };
+    w.add_proxy(P1, &opts);
+    w.add_proxy(P2, &opts);
+    for (p, me) in [(P1, 1u8), (P2, 2u8)] {
+        let r = w.client(p, &setcluster(1, strategy, me)).await;
+        if show_resp(&r) != "+OK" {
+            return Err(format!("SETCLUSTER -> {}", show_resp(&r)));
+        }
+    }
+    w.settle().await;
+    let b = |s: &str| s.as_bytes().to_vec();
+    let keys: Vec<Vec<u8>> = (0..nkeys).map(|i| key_in((8001, 16383), "mo", i + 1)).collect();
+    let vals: Vec<Vec<u8>> = (0..nkeys).map(|i| format!("value-of-key-{}-{}", i + 1, "x".repeat(40 * (i + 1))).into_bytes()).collect();
+    let mut mset = vec![b("MSET")];
+    for (k, v) in keys.iter().zip(&vals) {
+        mset.push(k.clone());
+        mset.push(v.clone());
+    }
+    let r = w.client(P2, &mset).await;
+    if show_resp(&r) != "+OK" {
+        return Err(format!("MSET -> {}", show_resp(&r)));
+    }
+    w.settle().await;
+    w.set_gate(Some(Box::new(|r: &ReqInfo| if r.cmds.first().and_then(|c| c.first()).map(|n| n.eq_ignore_ascii_case(b"GET")).unwrap_or(false) { Gate::Hold } else { Gate::Pass })));
+    let mut mget = vec![b("MGET")];
+    mget.extend(keys.iter().cloned());
+    let out = std::sync::Arc::new(std::sync::Mutex::new(None::<RespVec>));
+    {
+        let (w2, o2, c2) = (w.clone(), out.clone(), mget.clone());
+        tokio::spawn(async move {
+            let r = w2.client(P2, &c2).await;
+            *o2.lock().unwrap() = Some(r);
+        });
+    }
+    let mut menu = vec![];
+    let mut order = vec![];
+    for step in 0..64 {
+        w.settle().await;
+        if out.lock().unwrap().is_some() {
+            break;
+        }
+        let pend = w.pending_infos();
+        if pend.is_empty() {
+            w.advance_ms(1).await;
+            continue;
+        }
+        let pick = choices.get(menu.len()).cloned().unwrap_or(0).min(pend.len() - 1);
+        menu.push(pend.len());
+        order.push(show_cmd(&pend[pick].cmds[0]));
+        w.release(pend[pick].id, Release::Serve);
+        let _ = step;
+    }
+    w.set_gate(None);
+    let got = out.lock().unwrap().clone().ok_or_else(|| "MGET got no reply".to_string())?;
+    let want = Resp::Arr(Array::Arr(vals.iter().map(|v| Resp::Bulk(BulkStr::Str(v.clone()))).collect()));
+    Ok((menu, got, want, order.join(" < ")))
+}
+
+fn mget_order_family(acc_viol: &mut Vec<Violation>) -> (usize, usize) {
+    let mut cases = 0;
+    let mut max_orders = 0;
+    let mut seed = 500u64;
+    for strategy in ["disabled", "set_get_only", "allow_all"] {
+        for conns in [1usize, 2, 3] {
+            for nkeys in [2usize, 3] {
+                // DFS over serve orders
+                let mut stack: Vec<Vec<usize>> = vec![vec![]];
+                let mut orders = 0;
+                while let Some(prefix) = stack.pop() {
+                    seed += 1;
+                    let p2 = prefix.clone();
+                    let r = vh::det::on_fresh_thread(seed, 32 << 20, move || run_sim(run_mget_order(strategy, conns, nkeys, p2)));
+                    cases += 1;
+                    orders += 1;
+                    let mut add = |key: &str, desc: String| {
+                        if acc_viol.iter().filter(|v| v.key == key).count() < 1 {
+                            acc_viol.push(Violation { key: key.into(), desc, replay: json!({"family": "mget-order", "strategy": strategy, "backend_conn_num": conns, "keys": nkeys, "serve_choices": prefix}) });
+                        }
+                    };
+                    match r {
+                        Ok(Ok((menu, got, want, order))) => {
+                            if got != want {
+                                add("mget-values-not-in-key-order", format!("[{} / {} backend connections] MGET of {} keys whose backend replies complete in the order {}: reply {} expected {}", strategy, conns, nkeys, order, show_resp(&got), show_resp(&want)));
+                            }
+                            for i in prefix.len()..menu.len() {
+                                for alt in 1..menu[i] {
+                                    let mut p: Vec<usize> = prefix.clone();
+                                    p.resize(i, 0);
+                                    p.push(alt);
+                                    stack.push(p);
+                                }
+                            }
+                        }
+                        Ok(Err(e)) => add("mget-order:setup-failed", e),
+                        Err(_) => add("mget-order:panicked", "the proxy code panicked".into()),
+                    }
+                }
+                max_orders = max_orders.max(orders);
+            }
+        }
+    }
+    (cases, max_orders)
+}
+
 pub fn run(cli: &Cli) -> (Value, Vec<Violation>) {
     let thorough = cli.level() >= 1;
     let mut hs = vec![];
@@ -341,7 +453,10 @@ pub fn run(cli: &Cli) -> (Value, Vec<Violation>) {
             }
         }
     }
+    let (order_cases, max_orders) = mget_order_family(&mut viol);
+    cases += order_cases;
     let cov = json!({
+        "mget_completion_order_family": {"cases": order_cases, "max_serve_orders_per_configuration": max_orders, "rule": "MGET of 2-3 existing keys with 1-3 backend connections per node (round robin); the per-key backend requests wait at the network gate and every serve order the connections allow is enumerated; the reply must list the values in key order"},
         "evaluations": cases,
         "distinct_nontrivial": cases,
         "rule": "strategy {disabled,set_get_only,allow_all} x topology {owner proxy, second proxy with active redirection without / with max_redirections (UMFORWARD)} x 11 write shapes (SET, SET EX, SET NX, SETEX, PSETEX, SETNX, GETSET, MSET 1/3 pairs, MSETNX, SET PX XX on a missing key) x values x reads (GET, MGET incl. a missing key, GETSET) + 14 string-content commands per strategy; every case uses fresh keys and is distinct",
